@@ -8,6 +8,7 @@ from ..engine import (Ctx, calls_in, cond_from_entry, cond_in_loop, early_exits,
                       loop_region, rule, same_expr, strip_order_preserving)
 from ..formula import TRUE, counterexample, equivalent, implies, show
 from ..model import AnalysisError, dotted, src, walk_local
+from .runners import _handler_always_raises
 
 
 def _results_field(ctx: Ctx, fn) -> str:
@@ -52,6 +53,34 @@ def batch_all(ctx: Ctx):
                                  f'(an absent entry must be skipped, not terminal)')
             else:
                 yield ctx.ob('C17.BATCH-ALL', True, fn, lp, f'loop over `{batch}` has no early exit')
+            # an exception swallowed *outside* the loop is an early exit too: `try: for t in batch: del m[t]  except KeyError: pass`
+            # stops at the first absent entry
+            for t in [n for n in walk_local(fn.node) if isinstance(n, ast.Try)]:
+                if not any(x is lp for b in t.body for x in ast.walk(b)):
+                    continue
+                swallowing = [h for h in t.handlers if not _handler_always_raises(ctx, fn, h)]
+                if not swallowing:
+                    continue
+                field = _results_field(ctx, fn)
+                risky = []
+                for w in field_writes(fn):
+                    if w.field != field or not any(x is w.node for x in ast.walk(lp)):
+                        continue
+                    if w.kind not in ('item_delete', 'mutcall:pop'):
+                        continue
+                    if w.kind == 'mutcall:pop' and len(w.node.args) > 1:
+                        continue
+                    key = w.target.slice if (w.kind == 'item_delete' and isinstance(w.target, ast.Subscript)) else (w.node.args[0] if getattr(w.node, 'args', None) else None)
+                    if key is None:
+                        continue
+                    cond = cond_in_loop(ctx, fn, lp, w.node)
+                    present = formula_of(ctx, fn, f'{src(key)} in {fn.self_name}.{field}')
+                    inner = [t2 for t2 in walk_local(lp) if isinstance(t2, ast.Try) and any(x is w.node for b in t2.body for x in ast.walk(b))]
+                    if not implies(cond, present) and not inner:
+                        risky.append(w.node)
+                yield ctx.ob('C17.BATCH-ALL', not risky, fn, risky[0] if risky else t, f'no handler outside the loop over `{batch}` ends it',
+                             '' if not risky else f'`{src(risky[0])}` raises for an absent entry and the exception is swallowed outside the loop: '
+                             'the rest of the batch is never released', construct='swallow-outside-loop')
 
 
 @rule('C17.RELEASE-DELETES', ['C17', 'C02', 'C01'], min_instances=2)
@@ -341,3 +370,53 @@ def release_covers_all_stores(ctx: Ctx):
                          'what is stored there outlives the last dependent', construct=f'{c.name}.{fld}')
     if n == 0:
         raise AnalysisError('no keyed stores found in the runners')
+
+
+@rule('C17.DEPS-OWNED', ['C17', 'C02', 'C01', 'C11'])
+def deps_owned(ctx: Ctx):
+    """The state's task -> direct-dependencies map owns its collections.  Where it is filled by one whole assignment
+    (`self.<map>[task] = dependencies`) instead of per-element adds, the stored object is a copy, or no caller changes the
+    collection it passed afterwards: a caller that prunes / extends its own collection after the call edits the recorded edges."""
+    sf = roles.state_fields(ctx)
+    wa = sf.direct_deps_whole_assign
+    if wa is None:
+        yield ctx.ob('C17.DEPS-OWNED', True, sf.insert_fn, sf.insert_fn.node, f'{sf.direct_deps} is filled element by element',
+                     construct='per-element')
+        return
+    copied = isinstance(wa.value, ast.Call)
+    if copied:
+        yield ctx.ob('C17.DEPS-OWNED', True, sf.insert_fn, wa, f'{sf.direct_deps}[task] is a copy of the caller\'s collection')
+        return
+    pname = wa.value.id
+    params = [a.arg for a in sf.insert_fn.params if a.arg != sf.insert_fn.self_name]
+    if pname not in params:
+        yield ctx.ob('C17.DEPS-OWNED', True, sf.insert_fn, wa, f'{sf.direct_deps}[task] is a local collection')
+        return
+    idx = params.index(pname)
+    MUT = ('remove', 'discard', 'add', 'clear', 'pop', 'update', 'append', 'extend', 'difference_update', 'intersection_update', 'insert')
+    bad = []
+    for caller in ctx.P.all_functions():
+        for call in calls_in(caller.node):
+            if sf.insert_fn.qualname not in ctx.P.resolve_call(call, caller):
+                continue
+            arg = call.args[idx] if len(call.args) > idx else next((k.value for k in call.keywords if k.arg == pname), None)
+            if not isinstance(arg, ast.Name):
+                continue
+            g = ctx.cfg(caller)
+            after = g.reachable([g.primary(call)], include_starts=False)
+            for n in walk_local(caller.node):
+                mut = None
+                if isinstance(n, ast.Call) and isinstance(n.func, ast.Attribute) and n.func.attr in MUT \
+                        and isinstance(n.func.value, ast.Name) and n.func.value.id == arg.id:
+                    mut = n
+                elif isinstance(n, ast.AugAssign) and isinstance(n.target, ast.Name) and n.target.id == arg.id:
+                    mut = n
+                elif isinstance(n, ast.Delete) and any(isinstance(t, ast.Subscript) and isinstance(t.value, ast.Name) and t.value.id == arg.id for t in n.targets):
+                    mut = n
+                if mut is not None and g.primary(mut) in after:
+                    bad.append((caller, mut))
+    ok = not bad
+    yield ctx.ob('C17.DEPS-OWNED', ok, bad[0][0] if bad else sf.insert_fn, bad[0][1] if bad else wa,
+                 f'{sf.direct_deps}[task] is not changed through the caller\'s reference', '' if ok else
+                 f'`{src(wa)}` stores the caller\'s collection by reference and `{src(bad[0][1])[:60]}` in {bad[0][0].short} changes it afterwards: '
+                 'recorded dependency edges disappear (the dependency is never released, or a dependent starts early)')
